@@ -296,7 +296,10 @@ class ObjectConstraints(BaseConstraints, ObjectBase):
                 amp = 1.0
             phase = obj.angle() - obj.angle().mean()
             if mask is not None and self.constraints["apply_fov_mask"]:
-                obj2 = amp * mask * torch.exp(1.0j * phase * mask)
+                if self.obj_type == "complex":
+                    obj2 = amp * mask * torch.exp(1.0j * phase * mask)
+                else:  # pure_phase: the mask tapers the phase only, the amplitude stays one
+                    obj2 = torch.exp(1.0j * phase * mask)
             else:
                 obj2 = amp * torch.exp(1.0j * phase)
         else:  # potential
@@ -319,7 +322,11 @@ class ObjectConstraints(BaseConstraints, ObjectBase):
             else:
                 obj2 = obj - offset
 
-        if self.constraints["apply_fov_mask"] and mask is not None:
+        if (
+            self.constraints["apply_fov_mask"]
+            and mask is not None
+            and self.obj_type != "pure_phase"
+        ):
             obj2 *= mask
 
         # want backwards compatibility for gaussian_sigma and q_lowpass/q_highpass, so use get
